@@ -422,66 +422,75 @@ func init() {
 		sort.SliceStable(subsets, func(a, b int) bool { return len(subsets[a]) < len(subsets[b]) })
 		fullCuts := e.j.Bool("all_cuts", false)
 		caseNo := 0
-		for _, sub := range subsets {
-			keys := make([]string, len(sub))
-			for i, u := range sub {
-				keys[i] = c05Universe[u]
-			}
-			nh := 1
-			for range sub {
-				nh *= len(c05Hists)
-			}
-			for hc := 0; hc < nh; hc++ {
-				hists := make([]int, len(sub))
-				x := hc
-				T := 0
-				for i := range sub {
-					hists[i] = x % len(c05Hists)
-					x /= len(c05Hists)
-					if l := len(c05Hists[hists[i]]); l > T {
-						T = l
-					}
+		// Two passes, so that a run that hits its budget has still seen every key subset and every
+		// history combination: pass 0 places the layer cuts only at the two extremes (everything above
+		// / below each boundary), pass 1 enumerates the remaining cut placements.
+		for pass := 0; pass < 2; pass++ {
+			for _, sub := range subsets {
+				keys := make([]string, len(sub))
+				for i, u := range sub {
+					keys[i] = c05Universe[u]
 				}
-				T *= len(sub) // largest possible timestamp
-				var cutVals []int
-				if fullCuts {
-					for c := 0; c <= T; c++ {
-						cutVals = append(cutVals, c)
-					}
-				} else {
-					seen := map[int]bool{}
-					for _, c := range []int{0, (T + 2) / 3, (2*T + 1) / 3, T} {
-						if !seen[c] {
-							seen[c] = true
-							cutVals = append(cutVals, c)
+				nh := 1
+				for range sub {
+					nh *= len(c05Hists)
+				}
+				for hc := 0; hc < nh; hc++ {
+					hists := make([]int, len(sub))
+					x := hc
+					T := 0
+					for i := range sub {
+						hists[i] = x % len(c05Hists)
+						x /= len(c05Hists)
+						if l := len(c05Hists[hists[i]]); l > T {
+							T = l
 						}
 					}
-				}
-				for _, c1 := range cutVals {
-					for _, c2 := range cutVals {
-						for _, c3 := range cutVals {
-							if c1 > c2 || c2 > c3 {
-								continue
+					T *= len(sub) // largest possible timestamp
+					var cutVals []int
+					if fullCuts {
+						for c := 0; c <= T; c++ {
+							cutVals = append(cutVals, c)
+						}
+					} else {
+						seen := map[int]bool{}
+						for _, c := range []int{0, (T + 2) / 3, (2*T + 1) / 3, T} {
+							if !seen[c] {
+								seen[c] = true
+								cutVals = append(cutVals, c)
 							}
-							keys, hists, cuts := keys, hists, [3]int{c1, c2, c3}
-							caseNo++
-							cn := caseNo
-							e.do(fmt.Sprintf("%x/h%v/cut%v", strings.Join(keys, ","), hists, cuts), func() (string, string) {
-								db, m, s := c05Build(e, keys, hists, cuts)
-								defer func() {
-									dir := db.opt.Dir
-									_ = db.Close()
-									removeAll(dir)
-								}()
-								if s != "" {
-									return "c05-build", s
+						}
+					}
+					for _, c1 := range cutVals {
+						for _, c2 := range cutVals {
+							for _, c3 := range cutVals {
+								if c1 > c2 || c2 > c3 {
+									continue
 								}
-								e.r.AddExtra("databases", 1)
-								if s := c05Check(db, m, cn, e.r.AddExtra); s != "" {
-									return "iterator-mismatch", fmt.Sprintf("keys %q histories %v layer cuts %v (levels: %s): %s", keys, hists, cuts, shapeString(db), s)
+								extreme := func(c int) bool { return c == 0 || c == T }
+								if coarse := extreme(c1) && extreme(c2) && extreme(c3); coarse != (pass == 0) {
+									continue
 								}
-								return "", ""
-							})
+								keys, hists, cuts := keys, hists, [3]int{c1, c2, c3}
+								caseNo++
+								cn := caseNo
+								e.do(fmt.Sprintf("%x/h%v/cut%v", strings.Join(keys, ","), hists, cuts), func() (string, string) {
+									db, m, s := c05Build(e, keys, hists, cuts)
+									defer func() {
+										dir := db.opt.Dir
+										_ = db.Close()
+										removeAll(dir)
+									}()
+									if s != "" {
+										return "c05-build", s
+									}
+									e.r.AddExtra("databases", 1)
+									if s := c05Check(db, m, cn, e.r.AddExtra); s != "" {
+										return "iterator-mismatch", fmt.Sprintf("keys %q histories %v layer cuts %v (levels: %s): %s", keys, hists, cuts, shapeString(db), s)
+									}
+									return "", ""
+								})
+							}
 						}
 					}
 				}
